@@ -146,12 +146,36 @@ class Conv:
                     self._skip(a)
 
 
-def how_matched(func, pattern_name):
-    """read from the AST of the real function which re method it applies to the named pattern -> 'fullmatch'|'match'|'search'"""
+def how_matched(func, pattern_name, probe=None):
+    """which re method the real function applies to the named module-level pattern -> 'fullmatch'|'match'|'search'.
+    Observed dynamically: the module global is replaced by a recording proxy while the function runs on a probe string (works
+    through helper functions); falls back to reading the function's AST."""
     import ast
     import inspect
+    import sys
     import textwrap
 
+    mod = sys.modules[func.__module__]
+    pat = getattr(mod, pattern_name, None)
+    if pat is not None and probe is not None:
+        used = []
+
+        class Rec:
+            def __getattr__(self, k):
+                if k in ("fullmatch", "match", "search"):
+                    used.append(k)
+                return getattr(pat, k)
+
+        setattr(mod, pattern_name, Rec())
+        try:
+            try:
+                func(probe)
+            except Exception:  # noqa: BLE001
+                pass
+        finally:
+            setattr(mod, pattern_name, pat)
+        if len(set(used)) == 1:
+            return used[0]
     tree = ast.parse(textwrap.dedent(inspect.getsource(func)))
     found = []
     for node in ast.walk(tree):
